@@ -11,7 +11,7 @@ BUILTIN_FUNCS = {
     "len", "isinstance", "issubclass", "all", "any", "sum", "type", "list", "tuple", "dict", "frozenset",
     "next", "iter", "enumerate", "zip", "getattr", "hasattr", "object", "float", "sorted", "map", "repr",
     "super", "bool", "int", "min", "max", "range", "id", "str", "set", "deque", "callable", "abs", "print",
-    "takewhile", "reversed", "heappush", "heappop", "SortedDict", "ExitStack", "WeakSet",
+    "takewhile", "reversed", "heappush", "heappop", "SortedDict", "ExitStack", "WeakSet", "islice",
     # spec-only
     "old", "implies", "iff", "ite", "forall", "exists", "at", "typeof", "dead", "live", "unchanged",
     "seq_eq", "fresh_obj", "allocated", "is_instance_exact", "last_yield", "store", "anything", "real",
